@@ -194,11 +194,11 @@ theorem dump_step_generated (R : Nat → BitVec 32) (mem : Mem) (line : BitVec 6
   unfold mlog_dump.loop1.step rejectBV
   bv_decide (config := { timeout := 60 })
 
-theorem dump_step_iter (R : Nat → BitVec 32) (mem : Mem) (line : BitVec 64) (h : BitVec 32) (f : BitVec 64) (ub : Bool)
+theorem dump_step_generated_iter (R : Nat → BitVec 32) (mem : Mem) (line : BitVec 64) (h : BitVec 32) (f : BitVec 64) (ub : Bool)
     (i : BitVec 32) (tr : List ExtCall) (it : Nat) :
     (mlog_dump.loop1.step R mem line h f ub i tr it).1.iter = it + 1 := rfl
 
-theorem dump_step_trace_stop (R : Nat → BitVec 32) (mem : Mem) (line : BitVec 64) (h : BitVec 32) (f : BitVec 64) (ub : Bool)
+theorem dump_step_generated_trace_stop (R : Nat → BitVec 32) (mem : Mem) (line : BitVec 64) (h : BitVec 32) (f : BitVec 64) (ub : Bool)
     (i : BitVec 32) (tr : List ExtCall) (it : Nat) (hb : baseOkBV line = true) (hr : rejectBV h i = true) :
     (mlog_dump.loop1.step R mem line h f ub i tr it).1.trace = tr := by
   have hs := (dump_step_generated R mem line h f ub i tr it hb).1
@@ -213,7 +213,7 @@ theorem call_eq (mem : Mem) (tr : List ExtCall) (f a0 a1 a2 a3 b0 b1 b2 b3 r : B
     tr ++ [⟨"fprintf", [f, Mem.load64 mem b0, Mem.load64 mem b1, Mem.load64 mem b2, Mem.load64 mem b3], r⟩] := by
   subst h0 h1 h2 h3; rfl
 
-theorem dump_step_trace_go (R : Nat → BitVec 32) (mem : Mem) (line : BitVec 64) (h : BitVec 32) (f : BitVec 64) (ub : Bool)
+theorem dump_step_generated_trace_go (R : Nat → BitVec 32) (mem : Mem) (line : BitVec 64) (h : BitVec 32) (f : BitVec 64) (ub : Bool)
     (i : BitVec 32) (tr : List ExtCall) (it : Nat) (hb : baseOkBV line = true) (hr : rejectBV h i = false) :
     (mlog_dump.loop1.step R mem line h f ub i tr it).1.trace =
       tr ++ [call4 "fprintf" [f] (wordAt mem line (lineIdxBV h i) 0#64, wordAt mem line (lineIdxBV h i) 8#64,
@@ -442,7 +442,7 @@ theorem dump_loop_tie (mem : Mem) (line : BitVec 64) (h : BitVec 32) (s : St Rec
       rw [hr] at hg
       simp only [if_true] at hg ⊢
       have hd : dumpFrom s (fuel + 1) i = [] := by simp only [dumpFrom, hg]
-      rw [hd, dump_step_trace_stop R mem line h f ub _ tr it hb hr, g3, g4]
+      rw [hd, dump_step_generated_trace_stop R mem line h f ub _ tr it hb hr, g3, g4]
       simp [dumpCalls]
     | false =>
       rw [hr] at hg g2
@@ -457,7 +457,7 @@ theorem dump_loop_tie (mem : Mem) (line : BitVec 64) (h : BitVec 32) (s : St Rec
           (wordAt mem line (lineIdxBV h (BitVec.ofNat 32 i)) 0#64, wordAt mem line (lineIdxBV h (BitVec.ofNat 32 i)) 8#64,
            wordAt mem line (lineIdxBV h (BitVec.ofNat 32 i)) 16#64, wordAt mem line (lineIdxBV h (BitVec.ofNat 32 i)) 24#64)
             :: dumpFrom s fuel (i + 1) := by simp only [dumpFrom, hg]
-      rw [hd, dump_step_trace_go R mem line h f ub _ tr it hb hr, g2, g3, dump_step_iter, ← ofNat32_succ]
+      rw [hd, dump_step_generated_trace_go R mem line h f ub _ tr it hb hr, g2, g3, dump_step_generated_iter, ← ofNat32_succ]
       obtain ⟨k1, k2, k3⟩ := ih (i + 1) ub (tr ++ [call4 "fprintf" [f]
         (wordAt mem line (lineIdxBV h (BitVec.ofNat 32 i)) 0#64, wordAt mem line (lineIdxBV h (BitVec.ofNat 32 i)) 8#64,
          wordAt mem line (lineIdxBV h (BitVec.ofNat 32 i)) 16#64, wordAt mem line (lineIdxBV h (BitVec.ofNat 32 i)) 24#64)
